@@ -1,6 +1,7 @@
 package scipipe
 
 import (
+	crand "crypto/rand"
 	"fmt"
 	"math/rand"
 	"os"
@@ -72,9 +73,18 @@ var letters = []byte("abcdefghijklmnopqrstuvwxyz0123456789")
 var randSeqCounter int64
 
 func randSeqLC(n int) string {
+	b := make([]byte, n)
+	// Take the IDs from the system's entropy source if there is one: seeds made
+	// of the clock and the counter repeat between two programs that are started
+	// within the same clock tick, as each of them starts counting from one
+	if _, err := crand.Read(b); err == nil {
+		for i := range b {
+			b[i] = letters[int(b[i])%len(letters)]
+		}
+		return string(b)
+	}
 	aseed := rand.NewSource(time.Now().UnixNano() + atomic.AddInt64(&randSeqCounter, 1))
 	arand := rand.New(aseed)
-	b := make([]byte, n)
 	for i := range b {
 		b[i] = letters[arand.Intn(len(letters))]
 	}
